@@ -41,6 +41,27 @@ CHECKS["C14"] = (
     "every counterexample is replayed on real bbolt. Outside: larger sets, longer elements, buckets spanning several pages.",
     "6/C14")
 
+CHECKS["C03"] = (
+    "One inductive step from an arbitrary valid state: 2 (quick) / 3 (thorough) entity slots, each absent or present with symbolic field values "
+    "(unique name: one arbitrary byte; nullable / non-nullable unique nick: nil, empty or one arbitrary byte; roles: any subset of two values), built through the real "
+    "Create, then one symbolic operation (create, full update, field-restricted update with a symbolic field checker, delete) with symbolic arguments run "
+    "through the real DbImpl.Update / BaseStore code. The solver shows on every path that the operation is accepted iff the reference model accepts it "
+    "(duplicate / empty non-nullable value rejected with UniqueIndexDuplicateError, missing entity as not-found), and that afterwards the entity fields and the "
+    "raw unique-index and set-index buckets hold exactly what the successor state implies (no stale, extra or empty keys). One step from every valid state "
+    "covers histories of any length over these bounds.",
+    BASE_NOTE + "bbolt = mbolt model (validated against bbolt; rollback on error holds by construction and is assumed of bbolt). The three index kinds are "
+    "checked in separate harnesses with the other fields fixed. Outside: longer values, more entities, set members that are empty strings.",
+    "6/C03")
+CHECKS["C12"] = (
+    "Programs are enumerated (all boolean skeletons over distinct bool symbols and the literals true/false with <=3 (quick) / <=4 (thorough) connectives and/or/not, "
+    "printed with minimal and full parentheses, upper/mixed case, extra whitespace, redundant parentheses; plus every case/whitespace spelling of in, between, "
+    "contains, icontains and their not-forms) and parsed by the real lexer/parser natively; the recorded parse-tree walk is replayed against the real "
+    "ToBoltListener, typer and evaluator inside the executor. Per program the solver decides equality with the formula the text was printed from for every "
+    "truth assignment / field value.",
+    BASE_NOTE + "The program dimension is enumerated, not symbolic (ANTLR's ATN interpreter is not encodable). `not (P)` directly left of a connective is "
+    "not exercised (meaning not fixed by the statement). Known finding KF-C12-and-or-precedence (not repaired: needs the ANTLR tool).",
+    "6/C12")
+
 NOT_APPLICABLE = {
     "C18": "quantifies over goroutine schedules and data races on top of bbolt's MVCC; a sequential SSA symbolic executor has no schedule variable, bbolt's isolation is not encodable, and in the bbolt model it would hold by construction (DESIGN.md section 7)",
 }
